@@ -18,7 +18,9 @@ RULE = ("module layouts: leading blank lines and comments, a module docstring, d
         "\"\"\", google blocks at any depth (1..3 per docstring) or freeform groups separated by prose, preceding multi-line "
         "statements, wants, short and long helper definitions; failing statement kind {raise, raise inside a bracketed "
         "multi-line statement, inside a compound statement, in a helper called from the doctest line, got/want on print, on "
-        "an evaluated expression, on a multi-line statement, on the second of two wants, none} at first / middle / last "
+        "an evaluated expression, on a multi-line statement, on the second of two wants, inside try/finally, try/except with a "
+        "non-matching handler, nested try, a multi-line comprehension, a with block whose __exit__ runs, a while/else, a lambda "
+        "called from the doctest line, none} at first / middle / last "
         "position.  Non-trivial = the docstring does not start on the line after the def and the doctest fails; distinct by "
         "source hash")
 ASSUMPTIONS = [
@@ -29,7 +31,8 @@ ASSUMPTIONS = [
 ]
 NSHARDS = {'quick': 16, 'thorough': 16}
 FAIL_KINDS = ['raise', 'multi_raise', 'compound_raise', 'called', 'called_long', 'gotwant', 'gotwant_eval',
-              'gotwant_multi', 'gotwant_second', 'none']
+              'gotwant_multi', 'gotwant_second', 'none', 'try_finally', 'try_except_other', 'comprehension',
+              'with_raise', 'nested_try', 'lambda_call', 'while_else']
 PREFIXES = ['', '', 'r', 'R', 'u', 'U']
 
 
@@ -72,6 +75,24 @@ def gen_doctest(rng, uid, fail_kind):
     elif fail_kind == 'called_long':
         L += ['>>> def bad():', '...     x = 1', '...     y = 2', '...     z = 3', '...     w = 4',
               '...     raise RuntimeError("inner")', '', 'prose splits the parts', '', '>>> bad()  # %s' % fm]
+    elif fail_kind == 'try_finally':
+        # the frame keeps executing (the finally body) after the raise: the failing line is still the raise
+        L += ['>>> try:', '...     x = 1', '...     raise ValueError("%s")' % fm, '... finally:', '...     y = None',
+              '...     z = None']
+    elif fail_kind == 'try_except_other':
+        L += ['>>> try:', '...     raise ZeroDivisionError("%s")' % fm, '... except KeyError:', '...     pass']
+    elif fail_kind == 'comprehension':
+        L += ['>>> zz = [', '...     int(v)  # %s' % fm, '...     for v in ["1", "x"]', '... ]']
+    elif fail_kind == 'with_raise':
+        L += ['>>> import contextlib', '>>> with contextlib.suppress(KeyError):', '...     a = 1',
+              '...     raise ValueError("%s")' % fm]
+    elif fail_kind == 'nested_try':
+        L += ['>>> try:', '...     try:', '...         raise ValueError("%s")' % fm, '...     finally:', '...         q = 1',
+              '... finally:', '...     r = 2']
+    elif fail_kind == 'lambda_call':
+        L += ['>>> fz = lambda: 1 / 0', '>>> w = 3', '>>> fz()  # %s' % fm]
+    elif fail_kind == 'while_else':
+        L += ['>>> n = 2', '>>> while n:', '...     n -= 1', '... else:', '...     raise KeyError("%s")' % fm]
     elif fail_kind == 'gotwant':
         L += ['>>> print("good")', '%s bad' % fm, 'second want line']
     elif fail_kind == 'gotwant_eval':
